@@ -2,7 +2,7 @@
 // FIX8::SessionID (include/fix8/session.hpp) on two identities built with the three-string constructor.
 //   case   "SID <sender1> <target1> <sender2> <target2>"      (hex, "-" = empty)
 //   result "EQ <a==b> NE <a!=b> SEQ <a==a> SNE <a!=a> MIR <a.same_sender_comp_id(target2)> <a.same_target_comp_id(sender2)>
-//           SIDE <a.same_side_sender_comp_id(sender2)> <a.same_side_target_comp_id(target2)>"
+//           SIDE <a.same_side_sender_comp_id(sender2)> <a.same_side_target_comp_id(target2)> ID <hex a.get_id()> <hex b.get_id()>"
 #include "hcommon.hpp"
 #include <fix8/f8includes.hpp>
 
@@ -20,7 +20,8 @@ static std::string run(const std::string& line)
 	os << "EQ " << (a == b ? 1 : 0) << " NE " << (a != b ? 1 : 0)
 		<< " SEQ " << (a == a ? 1 : 0) << " SNE " << (a != a ? 1 : 0)
 		<< " MIR " << (a.same_sender_comp_id(target_comp_id(t2)) ? 1 : 0) << ' ' << (a.same_target_comp_id(sender_comp_id(s2)) ? 1 : 0)
-		<< " SIDE " << (a.same_side_sender_comp_id(sender_comp_id(s2)) ? 1 : 0) << ' ' << (a.same_side_target_comp_id(target_comp_id(t2)) ? 1 : 0);
+		<< " SIDE " << (a.same_side_sender_comp_id(sender_comp_id(s2)) ? 1 : 0) << ' ' << (a.same_side_target_comp_id(target_comp_id(t2)) ? 1 : 0)
+		<< " ID " << tohex(a.get_id()) << ' ' << tohex(b.get_id());
 	return os.str();
 }
 
